@@ -1,5 +1,8 @@
 """C10 -- escalation only ever extends the evidence (S4 multi-round machine; TLC second model in thorough tier)."""
+import contextlib
+import io
 import itertools
+import warnings
 import os
 from collections import deque
 
@@ -20,15 +23,15 @@ RULE = (
     "the implementation from its own previous output; states are de-duplicated on exactly that triple.  On every "
     "transition: selected is a superset of the previous, no card twice, for every contest the cards feeding its assertion "
     "(recorded through prep_comparison_sample + mvrs_to_data) are the previous sequence with new cards appended, the "
-    "redraw variant equals the single-round reference, and with the same contests carried across the two rounds "
+    "redraw and the continue variant both equal the single-round reference for the new sizes (selection and thresholds), and with the same contests carried across the two rounds "
     "set_p_values gives non-increasing p-values and monotone 'proved' for every MVR world of the plan (MVR = CVR, one "
     "discrepant card, one unfindable card).  Non-trivial = transition taken after a card was skipped or touching a card "
     "that serves two contests; distinct = distinct (world, state, event)"
 )
 ASSUMPTIONS = [
-    "a continue-round that stalls below the requested size is counted (diagnostic), not judged: the property does not promise that sizes are reached",
+    "every state is reached through rounds of the same process, so the previous selection is contained in the sample for the new sizes and a continued round must equal the redrawn one",
     "contests whose size is still 0 have no threshold and contribute no data",
-    "p-value clause uses alpha_mart + shrink_trunc and kaplan_kolmogorov with risk limit 0.5 on populations of <= 5 cards",
+    "p-value clause uses alpha_mart + shrink_trunc, alpha_mart + optimal_comparison and (thorough) kaplan_kolmogorov with risk limit 0.5 on populations of <= 5 cards; between the two rounds Audit.find_sample_size is called without manual records (planning from assumed error rates 0.01 / 0.05)",
 ]
 REQUIRE_VAC = ["transitions_after_skipped_card", "transitions_card_two_contests", "continue_transitions", "redraw_transitions", "p_value_pairs_compared", "proved_then_still_proved"]
 
@@ -38,8 +41,8 @@ PERMS5 = [(0, 1, 2, 3, 4), (4, 3, 2, 1, 0), (2, 4, 0, 3, 1)]
 
 def plan(tier):
     if tier == "quick":
-        return {"worlds": [(1, "all"), (2, "all"), (3, "all"), (4, PERMS4)], "subset_events": False, "mvr_worlds": 3, "tests": ["alpha"]}
-    return {"worlds": [(1, "all"), (2, "all"), (3, "all"), (4, "all"), (5, PERMS5)], "subset_events": True, "mvr_worlds": 99, "tests": ["alpha", "kk"]}
+        return {"worlds": [(1, "all"), (2, "all"), (3, "all"), (4, PERMS4)], "subset_events": False, "mvr_worlds": 3, "tests": ["alpha", "oc"]}
+    return {"worlds": [(1, "all"), (2, "all"), (3, "all"), (4, "all"), (5, PERMS5)], "subset_events": True, "mvr_worlds": 99, "tests": ["alpha", "kk", "oc"]}
 
 
 def bounds(tier):
@@ -58,8 +61,11 @@ PHANTOM_WORLD = {"on": False}  # world dimension: cards at odd list positions ar
 
 def build(styles, nums, sizes, thr, test="alpha"):
     cards = s4.make_cards(styles, nums, phantoms=[i % 2 == 1 for i in range(len(styles))] if PHANTOM_WORLD["on"] else None)
-    t = NonnegMean.alpha_mart if test == "alpha" else NonnegMean.kaplan_kolmogorov
+    t = NonnegMean.kaplan_kolmogorov if test == "kk" else NonnegMean.alpha_mart
     cons = s4.make_contests(IDS, sizes, cards_per={c: max(1, sum(1 for s in styles if c in s)) for c in IDS}, test=t, risk_limit=0.5)
+    if test == "oc":  # ALPHA with the comparison-audit estimator, whose alternative depends on an assumed error rate
+        for c in IDS:
+            cons[c].estim = NonnegMean.optimal_comparison
     for c in IDS:
         if thr[c] is not None:  # before a contest's first draw the Contest keeps whatever threshold it was constructed with
             cons[c].sample_threshold = thr[c]
@@ -150,6 +156,10 @@ def data_ids(styles, nums, state, mvr_world=None, test="alpha", cons=None, cards
     return out, mvr_sample, cvr_sample, cons
 
 
+PLAN_AUDIT = Audit.from_dict({"seed": 1, "sim_seed": 2, "quantile": 0.5, "error_rate_1": 0.01, "error_rate_2": 0.05, "reps": None,
+                              "strata": {"s": {"max_cards": 5, "use_style": True, "replacement": False}}})
+
+
 def p_clause(styles, nums, prev, new, mvr_world, test):
     """same contests carried over two rounds: p non-increasing, proved monotone"""
     cards, cons = build(styles, nums, dict(zip(IDS, prev[0])), dict(zip(IDS, prev[2])), test)
@@ -160,6 +170,13 @@ def p_clause(styles, nums, prev, new, mvr_world, test):
         _, mv, cv, _ = data_ids(styles, nums, st, mvr_world, test, cons=cons, cards=cards)
         if active:
             Assertion.set_p_values(active, mv, cv)
+            if st is prev:  # between the rounds the auditors plan the next one from assumed error rates (no effect on evidence)
+                with contextlib.redirect_stdout(io.StringIO()), warnings.catch_warnings():
+                    warnings.simplefilter("ignore")
+                    try:
+                        PLAN_AUDIT.find_sample_size(contests=active, cvrs=cards)
+                    except Exception as e:  # noqa
+                        raise RuntimeError(f"planning step (Audit.find_sample_size from assumed rates) raised {type(e).__name__}: {str(e)[:60]}")
         res.append({c: [(a.p_value, bool(a.proved), len(a.p_history)) for a in cons[c].assertions.values()] if cons[c].assertions else [] for c in IDS})
     return res
 
@@ -183,10 +200,15 @@ def judge_transition(styles, nums, prev, new, newsizes, mode, cache, pl, stats=N
     if not set(prev[1]) <= set(sel):
         out.append((f"C10|{mode}|previous-cards-dropped", f"{mode}: previous selection {list(prev[1])} not contained in {list(sel)}"))
     cards = [(nums[i], frozenset(styles[i])) for i in range(len(styles))]
-    if mode == "redraw":
-        want_sel, want_thr, _ = RS.consistent_sample(cards, dict(zip(IDS, sizes)))
-        if list(sel) != want_sel:
-            out.append(("C10|redraw|not-the-single-round-sample", f"redraw with sizes {list(sizes)} selected {list(sel)}, reference {want_sel}"))
+    # every state of the search was produced by this process with smaller sizes, so the previous selection lies inside the
+    # sample for the new sizes: redrawn or continued, the round must select exactly every contest's first n_c cards (C07's
+    # sentence for the new sizes) and leave each threshold at the contest's n_c-th card
+    want_sel, want_thr, _ = RS.consistent_sample(cards, dict(zip(IDS, sizes)))
+    if list(sel) != want_sel:
+        out.append((f"C10|{mode}|not-the-single-round-sample" if mode == "redraw" else "C10|continue|not-the-sample-for-the-new-sizes",
+                    f"{mode} with sizes {list(sizes)} selected {list(sel)}, every contest's first cards give {want_sel} (previous selection {list(prev[1])})"))
+    elif any(sizes[i] >= 1 and thr[i] != want_thr[c] for i, c in enumerate(IDS)):
+        out.append((f"C10|{mode}|threshold", f"{mode} with sizes {list(sizes)}: thresholds {list(thr)}, the contests' n_c-th cards have sample numbers {[want_thr.get(c) for c in IDS]}"))
     if out:
         return out
     try:
